@@ -23,7 +23,7 @@ fn groups_for(prop: &str, ctx: &Ctx) -> Vec<Box<dyn Group>> {
         "C06" => vec![Box::new(c06::ListHeader), Box::new(c06::Negotiation::new()), Box::new(c06::Memo::new())],
         "C03" => vec![Box::new(c03::History), Box::new(c13::Decisions), Box::new(c06::Negotiation::new())],
         "C04" => vec![Box::new(c03::History), Box::new(c04::CacheCtl)],
-        "C05" => vec![Box::new(c05::Serve)],
+        "C05" => vec![Box::new(c05::Serve), Box::new(c05::Overlap)],
         "C13" => vec![Box::new(c13::Decisions)],
         "C17" => vec![Box::new(c17::Hist::new(ctx))],
         "C08" => vec![Box::new(c08::Framing)],
